@@ -240,13 +240,21 @@ CHECKS = {
         technique='symbolic execution of MIR + SMT (z3) against reference decoders over symbolic characters; end-to-end replay in node',
         design='§4 C12',
     ),
+    'C13': dict(
+        engine='M', category='other',
+        text='Path algebra half of the property, bounded: path::resolve(base, rel) and path::normalize(path) are executed from MIR over sequences of <= 4 (thorough 5) '
+             'symbolic segments (each an arbitrary string without "/": ".", "..", empty and every name at once); str::split / starts_with / [1..] / join act on the segment '
+             'sequence by their documented meaning.  For every path of the code and every classification of the segments z3 decides that the result equals the reference '
+             'resolver (absolute rel restarts at the root; otherwise fold base, drop the file name, fold rel; "." keeps, ".." pops or stays at the root, others push).  '
+             'Counterexamples are replayed through TmplGroup::direct_dependencies.  Import precedence, <template is> lookup order, dependency queries in general, '
+             'suffix handling and insertion-order independence are NOT decided (concrete comparisons with nothing for a solver to range over).',
+        note='Trusted: the string-as-segment-sequence contracts in checks/c13.py (split / starts_with / index / join), Vec push/pop of the executor, the 12-line reference fold.',
+        technique='symbolic execution of MIR over symbolic segment sequences + SMT (z3 strings), replay through the group API',
+        design='§4 C13',
+    ),
 }
 
-NOT_APPLICABLE = {
-    'C13': 'path::resolve/normalize is heap code (Vec<&str> push/pop, split, join): Kani runs out of memory even with a concrete '
-           'base and 3 symbolic bytes, and the MIR encoder would have to replace every string operation by a model of my own; the '
-           'remaining part (linking by normalised path, dependency queries) compares concrete outputs with nothing left for a solver.',
-}
+NOT_APPLICABLE = {}
 
 PENDING_REASON = 'check not built yet in this revision (engine work in progress, see DESIGN.md §9); not claimed until it runs'
 
